@@ -69,6 +69,15 @@ def main():
         a.tier = 'quick'
     seed = int(os.environ.get('VERIF_SEED', '0') or 0)
     t0 = time.time()
+    # a run that does not finish is an infrastructure problem (exit 2), never a verdict
+    import signal
+    def _timeout(signum, frame):
+        print('INFRA: timeout after %s s' % os.environ.get('VERIF_TIMEOUT', ''))
+        os._exit(2)
+    signal.signal(signal.SIGALRM, _timeout)
+    limit = int(os.environ.get('VERIF_TIMEOUT', '900' if a.tier == 'quick' else '5400'))
+    os.environ['VERIF_TIMEOUT'] = str(limit)
+    signal.alarm(limit)
     os.makedirs(os.path.join(VERIF, '.work'), exist_ok=True)
     os.environ.setdefault('VERIF_WORK', os.path.join(VERIF, '.work'))
     try:
